@@ -47,8 +47,12 @@ def main():
                       'times - mutant is stale')
                 missed.append((mut['name'], 'stale'))
                 continue
+            text = text.replace(mut['old'], mut['new'])
+            if 'extra' in mut:
+                assert text.count(mut['extra']['old']) == 1
+                text = text.replace(mut['extra']['old'], mut['extra']['new'])
             with open(path, 'w') as fil:
-                fil.write(text.replace(mut['old'], mut['new']))
+                fil.write(text)
             for pid in todo:
                 env = dict(os.environ, VERIF_REPO=copy, VERIF_SEED=args.seed)
                 res = subprocess.run([os.path.join(VERIF, 'check'), pid,
